@@ -774,6 +774,53 @@ def elements_taken_over_as_accumulator(col):
             col.violation('C15/evaluations-share-state:element-taken-over-as-accumulator', '%s: second evaluation gives %r, the first gave %s' % (desc, got2, first_repr), None)
 
 
+class _Bag:
+    def __init__(self, *items):
+        self.items = list(items)
+
+    def __repr__(self):
+        return '_Bag(%s)' % ', '.join(map(repr, self.items))
+
+
+def iteration_is_the_one_registered_now(col):
+    """"Fold(..) equals reduce(op, iterate(glom(t, subspec)), init())" and "a non-iterable target raises FoldError", where iterate is the
+    iteration registered for the target's type on the Glommer in use AT THE TIME of the evaluation: reductions over a type whose
+    iteration is registered, registered differently, and withdrawn (iterate=False) between evaluations of the same spec objects"""
+    from glom import Glommer
+    forward, backward, doubled = (lambda b: iter(b.items)), (lambda b: reversed(b.items)), (lambda b: iter(b.items + b.items))
+    specs = [('Fold-list', lambda: Fold(T, init=list, op=lambda a, x: a + [x]), lambda it: functools.reduce(lambda a, x: a + [x], it, [])),
+             ('Sum', lambda: Sum(), lambda it: sum(it)),
+             ('Sum-subspec', lambda: Sum(T), lambda it: sum(it)),
+             ('Flatten', lambda: (T, [lambda x: [x, -x]], Flatten()), None),
+             ('Fold-sub', lambda: Fold(T, init=int, op=lambda a, x: a * 10 + x), lambda it: functools.reduce(lambda a, x: a * 10 + x, it, 0))]
+    histories = [[forward, backward], [forward, False], [False, forward], [forward, doubled, backward], [backward, False, forward], [forward, forward, False, doubled]]
+    for hi, history in enumerate(histories):
+        for sname, mk_spec, ref in specs:
+            if ref is None:
+                continue
+            for reuse in (True, False):
+                gl = Glommer()
+                spec = mk_spec()
+                for step, handler in enumerate(history):
+                    gl.register(_Bag, iterate=handler)
+                    target = _Bag(1, 2, 3)
+                    got = call(gl.glom, target, spec if reuse else mk_spec())
+                    col.case(('iteration-registered-now', sname, hi, step, reuse), True)
+                    col.count('glom_evaluations')
+                    col.count('registry_history_steps')
+                    if handler is False:
+                        ok = (not got.ok) and isinstance(got.exc, FoldError)
+                        want = 'a FoldError (the type is registered as not iterable)'
+                    else:
+                        w = ref(handler(_Bag(1, 2, 3)))
+                        ok = got.ok and got.value == w
+                        want = repr(w)
+                    if not ok:
+                        col.violation('C15/iteration-is-not-the-one-registered-at-the-time-of-the-evaluation:%s' % sname,
+                                      '%s on a Glommer whose registration for the target type was changed %d time(s) before this evaluation (%s spec object): %r, expected %s'
+                                      % (sname, step, 'the same' if reuse else 'a fresh', got, want), None)
+
+
 def run(ctx):
     col, rng = ctx.col, ctx.rng
     col.require('glom_evaluations', 1000)
@@ -786,6 +833,7 @@ def run(ctx):
         reductions_as_group_aggregators(col)
         lazy_flatten_is_lazy(col)
         elements_taken_over_as_accumulator(col)
+        iteration_is_the_one_registered_now(col)
         flatten_and_merge_functions_take_any_spec(col)
         lazily_flatten_items_of_non_iterable_types(col)
         non_iterables(col, ':after-reductions-over-items-of-such-types')
